@@ -40,6 +40,8 @@ SPEC = {
         "you/downloader/triesync.go:trieSync.run", "you/downloader/triesync.go:trieSync.Wait",
         "you/downloader/triesync.go:Downloader.FetchVldTrie", "you/downloader/triesync.go:Downloader.fetchStakingTrie",
         "you/downloader/triesync.go:Downloader.syncState", "you/downloader/triesync.go:Downloader.commonSyncTrie",
+        "you/downloader/triesync.go:Downloader.syncCht", "you/downloader/triesync.go:Downloader.syncBlt",
+        "you/downloader/downloader.go:Downloader.fetchAcTrie", "core/blockchain.go:BlockChain.TrieBackingDb",
     ],
     "level_text": "Coq theorems over all histories of any length (responses in any order and batching, duplicates, "
                   "unrequested and undecodable blobs, writers failing after k puts, restarts on the database as it is), "
@@ -87,7 +89,7 @@ SPEC = {
         "C19_nonvacuous_caller",
         "C19_launch_done_only_after_loop", "C19_launch_not_done_without_handover", "C19_launch_interrupted_is_error",
         "C19_launch_done_final", "C19_launch_refines", "C19_nonvacuous_launch",
-        "C19_launch_process_error_is_error", "C19_launch_process_error_recorded", "C19_nonvacuous_launch_error",
+        "C19_sync_writes_only_its_own_database", "C19_launch_process_error_is_error", "C19_launch_process_error_recorded", "C19_nonvacuous_launch_error",
     ],
     "cases": {"quick": 240, "thorough": 6000},
     "shard": 120,
@@ -121,6 +123,10 @@ SPEC = {
         "is modelled as the event alphabet of mstep and played by the harness, not executed; which eligible tasks a Go map "
         "iteration hands out and which of equal-priority entries Missing pops are taken from the observation and checked legal",
         "trieSync.commit writes through a database batch (atomic); the per-put prefix property is proved for Sync.Commit anyway",
+        "per-kind databases: the model makes the database a parameter of each sync (C19_sync_writes_only_its_own_database holds by "
+        "construction); that trieSync.commit writes through a batch of the current sync's backing database is an ORACLE-ONLY clause: "
+        "launch histories run several syncs of different kinds (validator/staking/state vs CHT vs BLT, both orders) on one Downloader "
+        "with TrieBackingDb as in core.BlockChain (prefixes checked against core.ChtTablePrefix / BloomTrieTablePrefix)",
         "launch campaign: real goroutines and channels with stub peers; outcomes are compared with the projection (astep) of the "
         "launch machine, proved to be its refinement (C19_launch_refines); racy cancelled-launch histories are repeated 3-12 "
         "times per shard; fetchAcTrie / prepareForFullSync and the other callers of sync.done are not driven (they need a chain)",
